@@ -378,7 +378,10 @@ impl Scenario for C04 {
                 let select_ok = {
                     // object sets used here: F fails, all others succeed
                     let f_bytes = Obj::F.bytes();
-                    frag.len() >= 2 && frag[2..] != f_bytes[..] && app::walk(&frag[2..], false).is_ok()
+                    let n_objs: usize = if frag.len() >= 2 { app::walk(&frag[2..], false).map(|h| h.iter().map(|x| x.objects.len()).sum()).unwrap_or(0) } else { 0 };
+                    // a SELECT with more controls than the configured limit is refused (TOO_MANY_OPS)
+                    let within_limit = self.cfg.max_controls.map(|m| n_objs <= m as usize).unwrap_or(true);
+                    frag.len() >= 2 && frag[2..] != f_bytes[..] && app::walk(&frag[2..], false).is_ok() && within_limit
                 };
                 let was_armed = model.armed.is_some();
                 if let Some(exec) = model.on_fragment(frag, *src, now, select_ok) {
@@ -557,6 +560,14 @@ fn scenarios(tier: &str) -> Vec<C04> {
     v.push(mk("full-d4-seq0", full_alphabet(), 4, 0));
     v.push(mk("full-d3-seq13", full_alphabet(), 3, 13));
     v.push(mk("full-d3-seq14", full_alphabet(), 3, 14));
+    // a non-default limit of one control per request: the two-object set B is refused
+    v.push(C04 {
+        name: "limit1-reducedB-d4-seq0".to_string(),
+        alphabet: reduced_alphabet(Obj::B),
+        depth: 4,
+        start_seq: 0,
+        cfg: OCfg { max_controls: Some(1), ..C04::cfg() },
+    });
     if tier == "thorough" {
         v.push(mk("reducedA-d5-seq0", reduced_alphabet(Obj::A), 5, 0));
         v.push(mk("reducedB-d5-seq14", reduced_alphabet(Obj::B), 5, 14));
